@@ -12,9 +12,10 @@ CONSTANTS
   ReqMethods = {"GET", "POST", "OPTIONS"}
   ReqHosts = {""}
   ReqPaths = {"/a", "/c"}
+  ReqOrigins = {"", "http://a.test", "http://evil.test"}
   GenMinCalls = 0
   Dev = {}
 SPECIFICATION Spec
-INVARIANTS TypeOK Inv_RouteCorsIntent Inv_Response Inv_Unmatched Inv_HandlerWins Inv_OptionsRouteOnly Inv_CorsValues
+INVARIANTS TypeOK Inv_RouteCorsIntent Inv_Response Inv_Unmatched Inv_HandlerWins Inv_OptionsRouteOnly Inv_CorsValues Inv_Judge
 CHECK_DEADLOCK FALSE
 
